@@ -13,7 +13,9 @@ ASSUMPTIONS = [
     'layer 1 (n_word <= 5): the specification is independent of any division operator: q*D <= N < (q+1)*D stated through multiplication',
     'layer 2 (6 <= n_word <= 26): the quotient kernel floor(N/D) is a term shared between the overlay model of NumPy // and the specification; '
     'decided is that fxpmath feeds it the correctly pre-scaled operands, sizes the result so that its range fits and stores it unchanged',
-    'the repr method of x/y goes through an inexact float division and is outside the model (only // and % are compared between methods)',
+    'the repr method of x/y (a float64 division followed by a store) is decided for concrete divisor codes only (part true_repr: every dividend code of words '
+    'up to 8 bits symbolic, divisor codes enumerated; the correctly rounded float quotient by a constant is modelled exactly, sx/term.py _fdiv_const); '
+    'with a symbolic divisor it is outside the model',
 ]
 
 
@@ -37,16 +39,36 @@ def configs(tier, seed):
     for x, y in C.pick(bp, 40 if tier == 'quick' else 600, rng):
         for part in ('true', 'floor', 'mod'):
             out.append(dict(part=part, layer=2, x=list(x), y=list(y), rounding='trunc'))
+    # repr method of x / y: float division by a concrete divisor code (the dividend is symbolic)
+    rp = [(s, n, f) for s in (True, False) for n in (2, 5, 7, 8) for f in sorted(set([0, n // 2, n]))]
+    for _ in range(40 if tier == 'quick' else 800):
+        x, y = rng.choice(rp), rng.choice(rp)
+        lo, hi = SP.limits(y[0], y[1])
+        cands = [c for c in range(lo, hi + 1) if c != 0]
+        big_odd = [c for c in cands if (abs(c) // (abs(c) & -abs(c))) >= 49]
+        bs = {rng.choice(cands), rng.choice((-1, 1, 3, hi, lo)) if y[0] else rng.choice((1, 3, hi))}
+        for b in sorted(c for c in bs if c != 0 and lo <= c <= hi):
+            out.append(dict(part='true_repr', layer=1, x=list(x), y=list(y), rounding=rng.choice(SP.ROUNDINGS), b=b,
+                            route=rng.choice(('operator', 'function'))))
+        if big_odd:
+            # divisors whose reciprocal is not a double close enough to survive a multiplication (odd part >= 49), dividend word wide enough
+            # to hold multiples of them, directed rounding
+            out.append(dict(part='true_repr', layer=1, x=list(x if x[1] >= 7 else (x[0], 8, x[2] % 9)), y=list(y), rounding=rng.choice(('trunc', 'floor', 'ceil', 'fix')),
+                            b=rng.choice(big_odd), route=rng.choice(('operator', 'function'))))
     return out
 
 
 def cost(cfg):
+    if cfg['part'] == 'true_repr':
+        return 400
     return (20 if cfg['part'] == 'identity' else 4) * (2 if cfg['layer'] == 1 else 1)
 
 
 def inputs(cfg):
     lo, hi = SP.limits(cfg['x'][0], cfg['x'][1])
     lo2, hi2 = SP.limits(cfg['y'][0], cfg['y'][1])
+    if cfg['part'] == 'true_repr':
+        return {'a': dict(kind='int', lo=lo, hi=hi), 'b': dict(kind='const', value=cfg['b'])}
     return {'a': dict(kind='int', lo=lo, hi=hi), 'b': dict(kind='int', lo=lo2, hi=hi2)}
 
 
@@ -70,6 +92,9 @@ def run(F, cfg, inp):
     x, y = ops('raw')
     if p == 'true':
         return dict(z=_snap(x / y))
+    if p == 'true_repr':
+        xr, yr = ops('repr')
+        return dict(z=_snap(xr / yr if cfg['route'] == 'operator' else F.pkg.truediv(x, y, method='repr')))
     if p == 'floor':
         xr, yr = ops('repr')
         return dict(z=_snap(x // y), zr=_snap(xr // yr))
@@ -101,7 +126,7 @@ def post(cfg, inp, ob):
     a, b = inp['a'], inp['b']
     p, layer = cfg['part'], cfg['layer']
     out = []
-    if p == 'true':
+    if p in ('true', 'true_repr'):
         z = ob['z']
         q = O.cells(z['val'])[0]
         zs, zn, zf = z['fmt']
